@@ -426,6 +426,9 @@ def assignFromTemp (c : Cfg) (i : Nat) (x : Arr) (es : List Ext) (rowLen : Nat :
 /-- `array(allocator)` array.hpp:207 -/
 def opCtorDefault (c : Cfg) (i : Nat) (a : AllocId) : M Unit := setSlot i (some (emptyArr c a))
 
+/-- the allocator of an allocator-extended constructor, else the one the plain constructor derives from its source -/
+def pickAlloc (a : Option AllocId) (dflt : AllocId) : AllocId := a.getD dflt
+
 /-- copy constructor array.hpp:499-514 (`alloc = select_on_container_copy_construction(other.alloc())`) and the
     allocator-extended copy constructor array.hpp:294-307 -/
 def opCtorCopy (c : Cfg) (i j : Nat) (a : Option AllocId) : M Unit := do
@@ -433,7 +436,7 @@ def opCtorCopy (c : Cfg) (i j : Nat) (a : Option AllocId) : M Unit := do
   match getArr s j with
   | none => ub
   | some y => do
-    let al := match a with | some a => a | none => c.select y.alloc
+    let al := pickAlloc a (c.select y.alloc)
     readCells c y.base y.n
     let p ← build c al y.n true
     setSlot i (some ⟨al, p, reported y.ext, y.n⟩)
@@ -464,7 +467,7 @@ def opCtorMove (c : Cfg) (i j : Nat) (a : Option AllocId) : M Unit := do
   match getArr s j with
   | none => ub
   | some y => do
-    setSlot i (some ⟨match a with | some a => a | none => y.alloc, y.base, y.ext, y.n⟩)
+    setSlot i (some ⟨pickAlloc a y.alloc, y.base, y.ext, y.n⟩)
     setSlot j (some { y with base := none, ext := emptyExts c.dim, n := 0 })
 
 def opDtor (c : Cfg) (i : Nat) : M Unit := do
